@@ -33,6 +33,10 @@ class RecPlain:
     parent: "t.Optional[RecPlain]" = None
 
 
+RecPlainId = t.NewType("RecPlainId", RecPlain)          # wrappers *around* the recursive class
+RecPlainAlias = t.TypeAliasType("RecPlainAlias", RecPlain)
+
+
 @dataclasses.dataclass
 class RecNT:  # closes its cycle through a NewType
     v: int
